@@ -160,9 +160,13 @@ class CacheView(Table):
 
             # serve the remainder from the inner iterator
             it = iter(self.inner)
-            for row in islice(it, len(self.cache), None):
-                # maybe there's more room in the cache?
-                if not self.n or len(self.cache) < self.n:
+            start = len(self.cache)
+            for i, row in enumerate(islice(it, start, None), start):
+                # maybe there's more room in the cache? (N.B., only append at
+                # the end of the cache, another iterator may have got there
+                # first)
+                if (not self.n or len(self.cache) < self.n) \
+                        and len(self.cache) == i:
                     self.cache.append(row)
                 yield row
 
